@@ -103,6 +103,8 @@ type Session struct {
 	OnRecv func(s *Session, e *End, t *kernel.Task, m *rtmp.Message)
 	// ExtraTasks are started along with the four endpoint tasks.
 	ExtraTasks func(s *Session)
+	// ReaderFn, when set, replaces the default ReadMessage loop of the reader tasks.
+	ReaderFn      func(s *Session, e *End, t *kernel.Task)
 	SkipHandshake bool
 	NoHalfClose   bool
 }
@@ -401,6 +403,10 @@ func (s *Session) reader(e *End) func(t *kernel.Task) {
 			t.Block("wait-handshake:"+e.Name, &e.hs)
 		}
 		if e.HsErr != nil || e.Proto == nil {
+			return
+		}
+		if s.ReaderFn != nil {
+			s.ReaderFn(s, e, t)
 			return
 		}
 		for {
